@@ -159,17 +159,17 @@ func (e *Executor) RunTask(ctx context.Context, call *Call) error {
 			return err
 		}
 
+		if err := ctx.Err(); err != nil {
+			return err
+		}
+
+		preCondMet, err := e.areTaskPreconditionsMet(ctx, t)
+		if err != nil {
+			return err
+		}
+
 		skipFingerprinting := e.ForceAll || (!call.Indirect && e.Force)
 		if !skipFingerprinting {
-			if err := ctx.Err(); err != nil {
-				return err
-			}
-
-			preCondMet, err := e.areTaskPreconditionsMet(ctx, t)
-			if err != nil {
-				return err
-			}
-
 			// Get the fingerprinting method to use
 			method := e.Taskfile.Method
 			if t.Method != "" {
